@@ -2,23 +2,43 @@
 
 Ground truth is what the harness itself declared and observed at the seams:
 
-* ``cache``:      instance -> dict(gen, ver, bad, ctime_us, ino) - what the
-                  cache writer put into cache/ (generation numbers are the
+* ``cache``:      instance -> dict(gen, ver, bad, ctime_us, ino, uname) - what
+                  the cache writer put into cache/ (generation numbers are the
                   harness's own, they do not depend on the unique-id formula);
 * ``containers``: container directory name -> dict(inst, gen, configures,
-                  finished, had_running, failed) - recorded by the wrapper
-                  around ``configure()`` (which instance/generation the event
-                  file belonged to when the directory was made);
-* the links themselves, read from running/ and cleanup/ with the real ``os``.
+                  finished, had_running, failed, last_configure) - recorded by
+                  the wrapper around ``configure()`` (which instance/generation
+                  the event file belonged to when the directory was made);
+* the links themselves, read from running/ and cleanup/ with the real ``os``;
+* ``hist``:       container name -> list of link operations observed at the
+                  ``treadmill.fs.replace`` / ``fs.symlink_safe`` seam:
+                  dict(ev='link'|'unlink'|'overwritten', where='running'|
+                  'cleanup', by=<which real function did it, in which
+                  context>).  Used for the *provenance* part of a signature
+                  only (``:via-...``), never for the verdict.
 
 Nothing of the manager's own bookkeeping is consulted.  Every function
 returns ``None`` or ``(sig, detail)``; signatures carry no instance values.
+A signature is ``C13:<clause>[:<when>]:via-<mechanism>``; a mechanism that is
+not one of the recognised ones is ``via-other``.
 """
 
 import os
 
 MARKERS = ('exitinfo', 'aborted', 'oom')
 _KIND_ORDER = {'running': 0, 'cleanup': 1}
+
+# `by` labels the engine produces (anything else becomes 'other')
+BY_LABELS = (
+    'sync', 'terminate-in-sync', 'terminate-on-deleted-event',
+    'configure-in-sync', 'configure-on-created-event',
+    'tombstone-of-own-container', 'tombstone-of-older-generation',
+    'tombstone-of-other-container', 'node-restart', 'cleanup',
+)
+
+
+def _by(label):
+    return label if label in BY_LABELS else 'other'
 
 
 def read_links(running_dir, cleanup_dir, apps_dir):
@@ -62,9 +82,35 @@ def container_exists(apps_dir, cname):
     return os.path.isdir(os.path.join(apps_dir, cname))
 
 
+# -- provenance helpers ----------------------------------------------------------
+
+def _last(hist, cname, ev, where=None):
+    for item in reversed(hist.get(cname, ())):
+        if item['ev'] == ev and (where is None or item['where'] == where):
+            return item
+    return None
+
+
+def _newest_link(hist, cname):
+    item = _last(hist, cname, 'link')
+    if item is None:
+        return 'via-other'
+    return 'via-%s-made-%s-link' % (_by(item['by']), item['where'])
+
+
+def _siblings(links, containers, inst, gen):
+    """Where containers of OTHER generations of `inst` are linked."""
+    out = set()
+    for (kind, _name), target in links.items():
+        rec = containers.get(target)
+        if rec is not None and rec['inst'] == inst and rec['gen'] != gen:
+            out.add(kind)
+    return out
+
+
 # -- after every handler call ------------------------------------------------
 
-def two_links(links, apps_dir):
+def two_links(links, apps_dir, hist):
     """A configured container is the target of at most one link."""
     by_target = {}
     for (kind, name), target in sorted(links.items()):
@@ -74,14 +120,15 @@ def two_links(links, apps_dir):
         if len(refs) < 2 or not container_exists(apps_dir, target):
             continue
         kinds = sorted((k for k, _n in refs), key=_KIND_ORDER.get)
-        return ('C13:container-two-links:' + '+'.join(kinds[:2]),
+        return ('C13:container-two-links:%s:%s' % (
+            '+'.join(kinds[:2]), _newest_link(hist, target)),
                 'container %s is the target of %d links: %s' % (
                     target, len(refs),
                     ', '.join('%s/%s' % r for r in refs)))
     return None
 
 
-def finished_restarted(old, new, apps_dir):
+def finished_restarted(old, new, apps_dir, hist):
     """No running link is created onto a container that already holds
     exitinfo / aborted / oom."""
     for (kind, name), target in sorted(new.items()):
@@ -89,7 +136,9 @@ def finished_restarted(old, new, apps_dir):
             continue
         found = markers(apps_dir, target)
         if found:
-            return ('C13:finished-container-restarted',
+            item = _last(hist, target, 'link', 'running')
+            via = 'via-' + _by(item['by']) if item else 'via-other'
+            return ('C13:finished-container-restarted:' + via,
                     'running/%s was created onto container %s in which %s '
                     'already exists' % (name, target, '/'.join(found)))
     return None
@@ -104,11 +153,33 @@ def _gen_finished(containers, inst, gen):
     return False
 
 
-def _gen_failed(containers, failed, inst, gen):
-    return (inst, gen) in failed
+def _why_missing(links, containers, hist, inst, gen):
+    """How did the current generation come not to be linked in running/?"""
+    mine = sorted(c for c, rec in containers.items()
+                  if rec['inst'] == inst and rec['gen'] == gen)
+    sib = _siblings(links, containers, inst, gen)
+    if not mine:
+        if 'running' in sib:
+            return 'via-not-configured-older-generation-running'
+        if 'cleanup' in sib:
+            return 'via-not-configured-older-generation-in-cleanup'
+        return 'via-other'
+    for cname in mine:
+        item = _last(hist, cname, 'unlink', 'running')
+        if item is None:
+            continue
+        by = _by(item['by'])
+        if by == 'node-restart':
+            if 'running' in sib:
+                return 'via-not-relinked-older-generation-running'
+            if 'cleanup' in sib:
+                return 'via-not-relinked-older-generation-in-cleanup'
+            return 'via-other'
+        return 'via-' + by
+    return 'via-other'
 
 
-def follow(links, cache, containers, failed, when):
+def follow(links, cache, containers, failed, when, hist):
     """running/ corresponds to the cached manifests that can be configured.
 
     ``failed``: set of (inst, gen) for which an injected configure failure
@@ -120,11 +191,13 @@ def follow(links, cache, containers, failed, when):
         rec = containers.get(target)
         ent = cache.get(inst)
         if ent is None:
-            return ('C13:running-not-matching-cache:extra:' + when,
+            return ('C13:running-not-matching-cache:extra:%s:%s' % (
+                when, _newest_link(hist, target)),
                     'running/%s -> %s but the cache has no entry for %s' % (
                         inst, target, inst))
         if rec is None or rec['inst'] != inst or rec['gen'] != ent['gen']:
-            return ('C13:running-not-matching-cache:extra:' + when,
+            return ('C13:running-not-matching-cache:extra:%s:%s' % (
+                when, _newest_link(hist, target)),
                     'running/%s -> %s (generation %s) but cache/%s is '
                     'generation %s' % (inst, target,
                                        rec['gen'] if rec else '?', inst,
@@ -135,20 +208,21 @@ def follow(links, cache, containers, failed, when):
             continue
         if _gen_finished(containers, inst, ent['gen']):
             continue      # finished on its own: must not run again
-        if _gen_failed(containers, failed, inst, ent['gen']):
-            return ('C13:running-not-matching-cache:'
-                    'missing-after-failed-configure:' + when,
+        if (inst, ent['gen']) in failed:
+            return ('C13:running-not-matching-cache:missing:%s:'
+                    'via-failed-configure-kept-cache-entry' % when,
                     'configure of cache/%s (generation %s) failed, the entry '
                     'is still cached and not running' % (inst, ent['gen']))
         clash = containers.get(ent.get('uname'))
         if clash is not None and clash['gen'] != ent['gen']:
-            return ('C13:running-not-matching-cache:missing:'
-                    'unique-name-collision:' + when,
+            return ('C13:running-not-matching-cache:missing:%s:'
+                    'via-unique-name-collision' % when,
                     'cache/%s (generation %s) is not running; the unique '
                     'name %s its (ctime, inode) give is the name of the '
                     'container of generation %s' % (
                         inst, ent['gen'], ent['uname'], clash['gen']))
-        return ('C13:running-not-matching-cache:missing:' + when,
+        return ('C13:running-not-matching-cache:missing:%s:%s' % (
+            when, _why_missing(links, containers, hist, inst, ent['gen'])),
                 'cache/%s (generation %s) can be configured and never '
                 'finished, but there is no running/%s' % (
                     inst, ent['gen'], inst))
@@ -156,7 +230,7 @@ def follow(links, cache, containers, failed, when):
 
 
 def uncleaned(links, cache, containers, apps_dir, only_previously_running,
-              when):
+              when, hist):
     """A container whose cache entry is gone (or belongs to a newer
     generation) is in cleanup or already removed."""
     in_cleanup = {target for (kind, _n), target in links.items()
@@ -174,8 +248,17 @@ def uncleaned(links, cache, containers, apps_dir, only_previously_running,
             continue
         if cname in in_cleanup or cname in in_running:
             continue      # a running one is reported as 'extra'
-        origin = 'after-failed-configure:' if rec['failed'] else ''
-        return ('C13:uncached-container-not-cleaned:' + origin + when,
+        lost = _last(hist, cname, 'overwritten', 'cleanup')
+        if lost is not None:
+            via = 'via-cleanup-link-overwritten-by-' + _by(lost['by'])
+        elif rec['failed']:
+            via = 'via-failed-configure'
+        elif 'cleanup' in _siblings(links, containers, rec['inst'],
+                                    rec['gen']):
+            via = 'via-other-generation-in-cleanup'
+        else:
+            via = 'via-other'
+        return ('C13:uncached-container-not-cleaned:%s:%s' % (when, via),
                 'container %s (instance %s generation %s) exists, its cache '
                 'entry is %s, and no cleanup link points to it' % (
                     cname, rec['inst'], rec['gen'],
@@ -205,7 +288,7 @@ def unchanged_set(links, cache, containers, apps_dir):
     return out
 
 
-def disturbed(unchanged, links, cache, containers, apps_dir, when):
+def disturbed(unchanged, links, cache, containers, apps_dir, when, hist):
     """Every member of `unchanged` whose cache entry is still the same and
     that did not finish meanwhile is still running, untouched."""
     for inst in sorted(unchanged):
@@ -220,16 +303,20 @@ def disturbed(unchanged, links, cache, containers, apps_dir, when):
         if now != target:
             where = sorted('%s/%s' % k for k, t in links.items()
                            if t == target)
-            return ('C13:unchanged-container-disturbed:' + when,
+            item = _last(hist, target, 'unlink', 'running')
+            via = 'via-' + _by(item['by']) if item else 'via-other'
+            return ('C13:unchanged-container-disturbed:%s:%s' % (when, via),
                     'container %s of unchanged cache/%s was running and is '
                     'not any more (running/%s -> %s; links to it now: %s)' % (
                         target, inst, inst, now, where or 'none'))
         if is_terminated(apps_dir, target):
-            return ('C13:unchanged-container-disturbed:' + when,
+            return ('C13:unchanged-container-disturbed:%s:'
+                    'via-marked-terminated' % when,
                     'container %s of unchanged cache/%s was marked '
                     'terminated' % (target, inst))
         if rec['configures'] != configures:
-            return ('C13:unchanged-container-disturbed:' + when,
+            return ('C13:unchanged-container-disturbed:%s:via-configured-'
+                    'again-%s' % (when, _by(rec['last_configure'])),
                     'container %s of unchanged cache/%s was configured '
                     'again (%d -> %d calls)' % (target, inst, configures,
                                                 rec['configures']))
